@@ -85,10 +85,10 @@ GLM_FUNC_QUALIFIER glm_vec4 glm_vec4_normalize(glm_vec4 v)
 GLM_FUNC_QUALIFIER glm_vec4 glm_vec4_faceforward(glm_vec4 N, glm_vec4 I, glm_vec4 Nref)
 {
 	glm_vec4 const dot0 = glm_vec4_dot(Nref, I);
-	glm_vec4 const sgn0 = glm_vec4_sign(dot0);
-	glm_vec4 const mul0 = _mm_mul_ps(sgn0, _mm_set1_ps(-1.0f));
-	glm_vec4 const mul1 = _mm_mul_ps(N, mul0);
-	return mul1;
+	// dot(Nref, I) < 0 ? N : -N  (N * -sign(dot) was the zero vector when the dot product is zero or NaN)
+	glm_vec4 const cmp0 = _mm_cmplt_ps(dot0, _mm_setzero_ps());
+	glm_vec4 const sgn0 = _mm_andnot_ps(cmp0, _mm_castsi128_ps(_mm_set1_epi32(int(0x80000000))));
+	return _mm_xor_ps(N, sgn0);
 }
 
 GLM_FUNC_QUALIFIER glm_vec4 glm_vec4_reflect(glm_vec4 I, glm_vec4 N)
